@@ -178,6 +178,9 @@ func draw(t *rapid.T) Case {
 		np := append(append(append(pol.Policy{}, p[:at]...), s), p[at:]...)
 		cs.Links[li].Pol = np
 	}
+	if rapid.IntRange(0, 5).Draw(t, "prefixpols") == 0 {
+		chain.MakePrefixPols(&cs.Case)
+	}
 	switch rapid.IntRange(0, 5).Draw(t, "hookmode") {
 	case 0, 1:
 		cs.Inv.Hook = &chain.Hook{Args: chain.DrawArgs(t, "hookargs")}
